@@ -145,6 +145,10 @@ def run_config(case, monitor_reads=False, calls=None):
                 dev.set_reg(35184, case["battery_modes"][j])
             if case.get("lossy"):
                 world.net.begin_script([{"k": "drop"}], {"k": "ok"})
+            if monitor_reads and fam == "ET" and j == 0 and case["seed"] % 5 == 1 and case.get("fail_request") is None and not case.get("lossy"):
+                # one request of the FIRST poll (the 2nd..4th: an optional block) is answered SLAVE DEVICE BUSY: the
+                # call may fail, it must not report values for a block it did not get
+                world.net.begin_script([{"k": "ok"}] * (1 + case["seed"] % 3) + [{"k": "exc", "code": 6}], {"k": "ok"})
             if case.get("fail_request") is not None and j == 0:
                 # the n-th request of the FIRST poll is lost together with all its retransmissions
                 world.net.begin_script([{"k": "ok"}] * case["fail_request"] + [{"k": "drop"}] * 3, {"k": "ok"})
